@@ -396,6 +396,10 @@ impl<'a> Model<'a> {
                 let r = self.invoke(func, 0, line, c.conduit)?;
                 Ok(3 + r.to_string().len() as i64)
             }
+            Conduit::DisplayInList => {
+                let r = self.invoke(func, 0, line, c.conduit)?;
+                Ok(5 + r.to_string().len() as i64)
+            }
             Conduit::Chain(..) => {
                 self.invoke(func, a, line, c.conduit)?;
                 self.invoke(func, a.wrapping_add(1), line, c.conduit)?;
